@@ -10,8 +10,8 @@ package bytecode
 // ---- the line table as a per-byte line map -----------------------------------------
 // psum(l, k): number of bytecode bytes covered by the first k entries
 spec rec fn psum(l LineInfoList, k int) int = ite(k <= 0, 0, psum(l, k - 1) + elem(l, k - 1).InstructionCount)
-// every entry exists and covers at least one byte
-spec fn wfLines(l LineInfoList) bool = forall j int :: 0 <= j && j < len(l) ==> elem(l, j) != nil && elem(l, j).InstructionCount >= 1
+// every entry exists, covers at least one byte, and is an object of its own
+spec fn wfLines(l LineInfoList) bool = (forall j int :: 0 <= j && j < len(l) ==> elem(l, j) != nil && elem(l, j).InstructionCount >= 1) && (forall j int, k int :: 0 <= j && j < k && k < len(l) ==> elem(l, j) != elem(l, k))
 
 lemma psumMono(l LineInfoList, a int, b int)
   props C32
@@ -42,4 +42,53 @@ func (LineInfoList).GetLineInfo
     hint psum(l, range_idx + 1) <= psum(l, len(l))
     hint later: forall k int :: range_idx < k && k <= len(l) ==> psum(l, range_idx + 1) <= psum(l, k)
     decreases len(l) - range_idx
+
+// psum of the first k entries depends only on those entries (two-state frame lemma)
+lemma psumFrame(l LineInfoList, m LineInfoList, k int)
+  props C32
+  requires 0 <= k && k <= len(l) && k <= len(m)
+  requires forall j int :: 0 <= j && j < k ==> old(elem(l, j).InstructionCount) == elem(m, j).InstructionCount
+  ensures old(psum(l, k)) == psum(m, k)
+  induction k from 0
+
+func (LineInfoList).Last
+  props C32
+  assigns nothing
+  ensures len(l) == 0 ==> ret == nil
+  ensures len(l) > 0 ==> ret == elem(l, len(l) - 1)
+
+// appending `bytes` bytes generated from `lineNumber`: every earlier byte keeps its line,
+// the new bytes map to lineNumber, and the table stays well formed
+func (*LineInfoList).AddLineNumber
+  props C32
+  uses psumFrame
+  requires l != nil && wfLines(*l) && bytes >= 1 && psum(*l, len(*l)) + bytes <= 72057594037927936
+  ensures try wf: wfLines(*l)
+  ensures try total: psum(*l, len(*l)) == old(psum(*l, len(*l))) + bytes
+  ensures lastline: len(*l) >= 1 && elem(*l, len(*l) - 1).LineNumber == lineNumber
+  ensures grows: len(*l) == old(len(*l)) || len(*l) == old(len(*l)) + 1
+  ensures try entries: forall k int :: 0 <= k && k < old(len(*l)) ==> elem(*l, k) == old(elem(*l, k)) && elem(*l, k).LineNumber == old(elem(*l, k).LineNumber)
+  ensures try earlier: forall k int :: 0 <= k && k < old(len(*l)) ==> psum(*l, k) == old(psum(*l, k))
+  ensures try newblock: len(*l) == old(len(*l)) + 1 ==> psum(*l, old(len(*l))) == old(psum(*l, len(*l)))
+
+func (*LineInfoList).AddBytesToLastLine
+  props C32
+  uses psumFrame
+  requires l != nil && wfLines(*l) && len(*l) >= 1 && bytes >= 0 && psum(*l, len(*l)) + bytes <= 72057594037927936
+  hint f1: old(psum(*l, len(*l) - 1)) == psum(*l, len(*l) - 1)
+  hint f2: forall k int :: 0 <= k && k < len(*l) ==> old(psum(*l, k)) == psum(*l, k)
+  ensures try wf: wfLines(*l) && *l == old(*l)
+  ensures try total: psum(*l, len(*l)) == old(psum(*l, len(*l))) + bytes
+  ensures entries: forall k int :: 0 <= k && k < len(*l) ==> elem(*l, k).LineNumber == old(elem(*l, k).LineNumber)
+  ensures earlier: forall k int :: 0 <= k && k < len(*l) ==> psum(*l, k) == old(psum(*l, k))
+
+func (*LineInfoList).RemoveByte
+  props C32
+  uses psumFrame
+  requires l != nil && wfLines(*l) && len(*l) >= 1
+  hint f1: old(psum(*l, len(*l) - 1)) == psum(*l, old(len(*l)) - 1)
+  hint f2: old(psum(*l, len(*l))) == old(psum(*l, len(*l) - 1)) + old(elem(*l, len(*l) - 1).InstructionCount)
+  ensures wf: wfLines(*l)
+  ensures total: psum(*l, len(*l)) == old(psum(*l, len(*l))) - 1
+  ensures earlier: forall k int :: 0 <= k && k < len(*l) ==> psum(*l, k) == old(psum(*l, k)) && elem(*l, k).LineNumber == old(elem(*l, k).LineNumber)
 @*/
